@@ -250,6 +250,18 @@ def dedicated(dirsel="/d"):
     sc("cap-hide-then-title", {".names": [B(Path="./fred", Name="Fred is back"), B(Type="X", Path="./b.txt")]},
        caps={"fred": B(Type="-"), "b.txt": B(Type="X")}, feats=["cap-hidden-relisted"])
     sc("cap-override", {}, caps={"fred": B(Name="New Long Cool Name", Numb="2")})
+    # two override sources for ONE file setting the SAME field: the .cap file is read first, link files after it in
+    # name order, so the later block's value stands (one scenario per field)
+    sc("cap-and-block-same-name", {".names": [B(Path="./b.txt", Name="From names")]}, caps={"b.txt": B(Name="From cap")})
+    sc("cap-and-block-same-numb", {".names": [B(Path="./b.txt", Numb="3"), B(Path="./zeta.txt", Numb="2")]},
+       caps={"b.txt": B(Numb="1")})
+    sc("cap-and-block-same-abstract", {".Links": [B(Path="./fred", Abstract=["from the link file"])]},
+       caps={"fred": B(Abstract=["from the cap file", "second line"])})
+    sc("cap-and-block-same-type", {".names": [B(Path="./b.txt", Type="1")]}, caps={"b.txt": B(Type="9")})
+    sc("cap-and-block-same-host-port", {".Links": [B(Path="./zeta.txt", Host="other.example", Port="7071")]},
+       caps={"zeta.txt": B(Host="cap.example", Port="7072")})
+    sc("cap-and-two-blocks-same-name", {".Links": [B(Path="./b.txt", Name="From Links")],
+                                        ".names": [B(Path="./b.txt", Name="From names")]}, caps={"b.txt": B(Name="From cap")})
     return out
 
 
